@@ -139,6 +139,11 @@ def cases(tier, seed):
                 for kind, st in pairs:
                     for filler in ("ascii", "multibyte"):
                         yield {"k": "B", "ending": ending, "pos": pos, "snip": snip, "kind": kind, "style": st, "filler": filler}
+    # the window edge at every byte of the tag line: the tag is read whole or not at all, never cut short
+    for ending in ("\n", "\r\n"):
+        for kind, st in pairs:
+            for d in range(1, 60):
+                yield {"k": "B", "ending": ending, "pos": f"cut:{d}", "snip": "none", "kind": kind, "style": st, "filler": "ascii"}
     for k in (1, 2, 3):
         for d in range(0, 18):
             for ending in ("\n", "\r\n"):
@@ -246,7 +251,10 @@ def ev_B(c) -> R:
     if c["pos"] == "start":
         text = head + tag + fill_unit * 300 + tail
     else:
-        target = {"inside-end": 4096 - size(tag), "straddle": 4096 - size(tag) // 2, "after": 4096 + 1}[c["pos"]]
+        if c["pos"].startswith("cut:"):
+            target = 4096 - int(c["pos"][4:])
+        else:
+            target = {"inside-end": 4096 - size(tag), "straddle": 4096 - size(tag) // 2, "after": 4096 + 1}[c["pos"]]
         while size(head + pad + fill_unit) <= target:
             pad += fill_unit
         if c["filler"] == "multibyte":
@@ -285,8 +293,9 @@ def ev_B(c) -> R:
         elif after:
             if got_c or got_l:
                 r.violation(sig + "|read-beyond-window", f"{label}: the tag lies wholly after the window and there is no snippet marker, yet lint reads {got_c} {got_l}")
-        else:
-            r.notes.append("straddling tag: observed only")
+        elif (got_c, got_l) not in ((want_c, want_l), ([], [])):
+            r.violation(f"B|{kind}|tag-cut-by-the-window", f"{label}: the window ends inside the tag's line; lint reads copyrights {got_c} expressions {got_l} - "
+                                                          f"neither the whole tag ({want_c} {want_l}) nor nothing")
     r.outcome = f"B-{'in' if inside else ('after' if after else 'straddle')}-{'snip' if whole_file else 'nosnip'}"
     r.nontrivial = not inside
     r.tags.append("B")
